@@ -15,7 +15,9 @@ RULE = ("[options reach the loop as the runner builds them: every case places ea
         "rounds faster than 1 ns (the 1 ns floor decides the round count); (4) end to end: hx-loop-e2e through Divan::main with --min-time/--max-time/"
         "DIVAN_MIN_TIME/DIVAN_MAX_TIME as decimal seconds with sub-millisecond parts, the benchmark running on the virtual clock (--timer tsc), rounds "
         "compared with the model under the exactly converted limits (decimal_nanos); (5) two runs on the OS timer (Instant) with calls of at "
-        "least 400 ms under a 1 s ceiling, judged by the bound of C04_rounds_bounded. The harness logs every timestamp the loop takes; "
+        "least 400 ms under a 1 s ceiling, judged by the bound of C04_rounds_bounded; (6) end to end on the virtual clock with an input generator "
+        "that takes external time: skip_ext_time from the bench attribute, the group, or Divan::skip_ext_time(false|true) (before or after "
+        "the limit; the builder wins), rounds read from the dumped event log, model driven by the same history. The harness logs every timestamp the loop takes; "
         "the log drives the extracted model; the extracted c04_sb (rounds = least k with not continue_after k, computed "
         "declaratively from the logged timestamps) is evaluated on the implementation's output. "
         "Non-trivial = agreed `ok` line with at least one round; distinct by input line.")
@@ -102,6 +104,7 @@ def streams(tier, rng):
         L.make_stream("c04-corpus", "c04", L.corpus("C04")),
         L.cli_time_stream("c04-cli-time-limits", cli),
         L.os_timer_stream("c04-os-timer-ceiling"),
+        L.skip_ext_stream("c04-e2e-skip-ext-time", L.skip_ext_cases(rng, 40 if not big else 300)),
         L.make_stream("c04-boundaries", "c04", aimed, hist=L.histogram(aimed),
                       describe="min/max at the elapsed time of a round, -1/0/+1 tick"),
         L.make_stream("c04-random-budgets", "c04", rand, hist=L.histogram(rand),
